@@ -12,6 +12,7 @@ import Dippy.Model.Hook
 import Dippy.Model.LogFS
 import Dippy.Generated.Tables
 import Dippy.Generated.Hook
+import Dippy.Model.Wrappers
 
 open Lean Dippy
 
@@ -214,6 +215,7 @@ def worldOfTables (j : Json) : R World := do
       | none => "<oracle-miss>"
     simpleSafe := fun b => Generated.simpleSafe.contains b
     wrapper := fun b => Generated.wrapperCommands.contains b
+    wrapperArgFlags := fun b => ((Generated.wrapperFlagsWithArg.find? (·.1 == b)).map (·.2)).getD []
     resolveCd := fun t cwd => match cdT.find? (fun e => e.1 == t && e.2.1 == cwd) with
       | some e => e.2.2
       | none => "<oracle-miss>"
@@ -418,6 +420,45 @@ def handle (j : Json) : R Json := do
         | "allow" => Action.allow | "deny" => Action.deny | _ => Action.ask
       return (⟨a, strD e "reason" ""⟩ : Decision)
     return decisionJson (combine ds)
+  | "htables" =>
+    let l (xs : List String) : Json := Json.arr (xs.map Json.str).toArray
+    let d (xs : List (String × String)) : Json := Json.arr (xs.map fun kv => Json.arr #[Json.str kv.1, Json.str kv.2]).toArray
+    return Json.mkObj [
+      ("env.FLAGS_WITH_ARG", l Generated.H.env_FLAGS_WITH_ARG), ("xargs.FLAGS_WITH_ARG", l Generated.H.xargs_FLAGS_WITH_ARG),
+      ("xargs.UNSAFE_FLAGS", l Generated.H.xargs_UNSAFE_FLAGS), ("arch.FLAGS_NO_ARG", l Generated.H.arch_FLAGS_NO_ARG),
+      ("arch.FLAGS_WITH_ARG", l Generated.H.arch_FLAGS_WITH_ARG), ("arch.ARCH_FLAGS", l Generated.H.arch_ARCH_FLAGS),
+      ("caffeinate.FLAGS_NO_ARG", l Generated.H.caffeinate_FLAGS_NO_ARG), ("caffeinate.FLAGS_WITH_ARG", l Generated.H.caffeinate_FLAGS_WITH_ARG),
+      ("fd.EXEC_FLAGS", l Generated.H.fd_EXEC_FLAGS), ("script.FLAGS_WITH_ARG", l Generated.H.script_FLAGS_WITH_ARG),
+      ("script.FLAGS_NO_ARG", l Generated.H.script_FLAGS_NO_ARG), ("docker.EXEC_FLAGS_WITH_ARG", l Generated.H.docker_EXEC_FLAGS_WITH_ARG),
+      ("shell.COMMANDS", l Generated.H.shell_COMMANDS),
+      ("docker.EXEC_SHORT_FLAGS_WITH_ARG", Json.str Generated.H.docker_EXEC_SHORT_FLAGS_WITH_ARG),
+      ("xargs.FLAG_CONTEXT", d Generated.H.xargs_FLAG_CONTEXT), ("find.FLAG_CONTEXT", d Generated.H.find_FLAG_CONTEXT),
+      ("fd.FLAG_DISPLAY", d Generated.H.fd_FLAG_DISPLAY),
+      ("bashSafeExtra", Json.str Generated.H.bashSafeExtra), ("modelSafeExtra", Json.str (String.ofList safeExtra)),
+      ("bashQuoteReplace", Json.arr #[Json.str Generated.H.bashQuoteReplace.1, Json.str Generated.H.bashQuoteReplace.2]),
+      ("bashAssignShape", Json.str Generated.H.bashAssignShape), ("analyzerAssignRe", Json.str Generated.H.analyzerAssignRe),
+      ("runsScriptsCommands", l Generated.runsScriptsCommands),
+      ("wrapperFlagsWithArg", Json.arr (Generated.wrapperFlagsWithArg.map fun kv => Json.arr #[Json.str kv.1, l kv.2]).toArray)]
+  | "bashquote" => return Json.str (bashQuote (← str j "s"))
+  | "bashjoin" => return Json.str (bashJoin (← strList (j.getObjValD "tokens")))
+  | "shellwords" =>
+    match shellWords (← str j "s").toList with
+    | some ws => return Json.arr (ws.map fun w => Json.str (String.ofList w)).toArray
+    | none => return Json.null
+  | "wclassify" =>
+    let ts ← strList (j.getObjValD "tokens")
+    let c := match (← str j "name") with
+      | "shell" => W.shellClassify ts | "env" => W.envClassify ts | "xargs" => W.xargsClassify ts
+      | "find" => W.findClassify ts | "fd" => W.fdClassify ts | "arch" => W.archClassify ts
+      | "caffeinate" => W.caffeinateClassify ts | "script" => W.scriptClassify ts
+      | _ => W.ask "<no-model>"
+    return Json.mkObj [("action", Json.str c.action), ("inner", optStrJson c.innerCommand), ("desc", optStrJson c.description), ("remote", Json.bool c.remote)]
+  | "execinner" =>
+    let ts ← strList (j.getObjValD "tokens")
+    let r := if (← str j "name") == "docker" then W.dockerExecInner false ts else W.kubectlExecInner ts
+    match r with
+    | some xs => return Json.arr (xs.map Json.str).toArray
+    | none => return Json.null
   | "stripquotes" => return Json.str (stripQuotes (← str j "s"))
   | "strip" => return Json.str (Py.strip (← str j "s"))
   | "fnmatch" => return Json.bool (Glob.fnmatch (← str j "name") (← str j "pat"))
